@@ -295,7 +295,9 @@ def run_case(case) -> Outcome:
         hub.queued = True
         stop = threading.Event()
         delays = case.get("delays") or [0]
-        noise = case.get("noise") or []
+        # "unrelated" traffic must not use a CAN id that belongs to one of the participating nodes
+        own = {base + th["node"] for th in threads for base in (0x580, 0x600, 0x700, 0x80)}
+        noise = [nz if (nz is None or nz[0] not in own) else None for nz in (case.get("noise") or [])]
         state = {"i": 0}
 
         def dispatch():
